@@ -30,7 +30,7 @@ REPLAYS = VERIF / "replays"
 KNOWN = VERIF / "known_findings.json"
 TLA_JAR = "/opt/veriftools/tla/tla2tools.jar"
 TLA_CP = f"{TLA_JAR}:/opt/veriftools/tla/CommunityModules-deps.jar"
-NCPU = os.cpu_count() or 4
+NCPU = int(os.environ.get("VERIF_NCPU", "0")) or os.cpu_count() or 4  # VERIF_NCPU caps the parallelism (JVM shards, worker processes) on a shared machine
 
 
 class MachineryError(Exception):
